@@ -53,6 +53,20 @@ class Stop(Control):
     """Harness asked to end the path early (normal)."""
 
 
+class UnitMissing(Control):
+    """A unit-level obligation addresses a PRIVATE entry point (function, attribute) that this tree does not have under any
+    of the names the harness knows: the obligation does not apply to this tree (it is reported as such, never as passed and
+    never as a violation); the property's obligations through the public API still decide."""
+
+
+def unit(owner, *names):
+    """first attribute of `owner` (module or object) that exists among `names`"""
+    for n in names:
+        if hasattr(owner, n):
+            return getattr(owner, n)
+    raise UnitMissing("%s.%s" % (getattr(owner, "__name__", type(owner).__name__), names[0]))
+
+
 class ReplayMismatch(BaseException):
     """(BaseException so that the library's `except Exception` cannot swallow it during a replay)"""
 
